@@ -11,11 +11,11 @@ import subprocess
 import sys
 import tempfile
 
-NOT_BY_DESIGN = {"C09-d", "C09-i", "C04-g", "C07-h", "C10-h", "C20-g", "C04-l", "C18-l"}
+NOT_BY_DESIGN = {"C20-n", "C09-d", "C09-i", "C04-g", "C07-h", "C10-h", "C20-g", "C04-l", "C18-l"}
 # changes that stopped breaking their property when a genuine defect they relied on was repaired in /repo (see meta.json "obsolete")
 OBSOLETE = {"C12-c", "C12-e", "C12-h"}
 # changes written against one property whose effect is a violation of another one (the check of that other property catches them)
-CROSS = {"C01-h": "C09", "C03-h": "C20", "C07-l": "C10"}
+CROSS = {"C16-n": "C02", "C01-h": "C09", "C03-h": "C20", "C07-l": "C10"}
 
 
 def sh(cmd):
